@@ -155,7 +155,11 @@ implementation on every run), `res[j]` is the classical exact probability that a
 r×c matrix over GF(2) has rank j,
   ∏_{i<j} (2^c − 2^i)(2^r − 2^i) / (∏_{i<j} (2^j − 2^i) · 2^(r·c))
   [= 2^(j(r+c−j) − rc) ∏_{i<j} (1 − 2^(i−r))(1 − 2^(i−c)) / (1 − 2^(i−j))],
-for EVERY shape r, c and every j ≤ r; the list has r + 1 entries. -/
+for EVERY shape r, c and every j ≤ r; the list has r + 1 entries.
+NOTE (second review, L19): "exact probability" means this classical closed-form product, which is TAKEN AS
+THE SPECIFICATION.  No theorem of the project counts the r×c matrices of rank j over GF(2).  That the values
+form a distribution (sum 1 over j = 0 … min(r, c), and the returned list sums to 1) is proved from the
+recurrence in Props/C12RankSum.lean. -/
 theorem rankDistribution_formula (r c j : Nat) (hj : j ≤ r) :
     (rankRes r c).length = r + 1 ∧
     (rankRes r c)[j]? =
